@@ -43,8 +43,20 @@ pub fn oracle(text: &str, ctx: &mut Ctx) {
     }
 }
 
+fn fault_oracle(case: &crate::model::ProgCase, _index: u64, ctx: &mut Ctx) {
+    crate::props::gprog::for_each_fault(case, &mut |t| {
+        ctx.count("program_layouts_and_single_faults", 1);
+        oracle(t, ctx)
+    });
+}
+
 pub fn spaces(tier: Tier, _seed: u64) -> Vec<Box<dyn Space>> {
     let mut v = c01::text_spaces(tier, oracle);
+    v.push(crate::props::gprog::fault_programs(0, fault_oracle));
+    v.push(crate::space::TextSpace::list("PREFIXES/long-program", crate::props::gprog::prefix_texts(), 32, oracle));
+    if tier.is_thorough() {
+        v.push(crate::props::gprog::fault_programs(1, fault_oracle));
+    }
     // scaling families as plain texts
     let fams = c01::scale_families();
     let mut texts = Vec::new();
